@@ -772,6 +772,8 @@ def _h_layer_norm(name: str, func: Any, args: Tuple[Any, ...], kw: Dict[str, Any
     ns = tuple(d["normalized_shape"])
     meta = _run_meta(F.layer_norm, (x, ns, d["weight"], d["bias"], d["eps"]), {})
     for a, b in zip(x.shape[len(x.shape) - len(ns):], ns):
+        if isinstance(a, SInt) and isinstance(b, int) and a.sample == b:
+            continue  # a concrete size baked into a captured graph: matched to the dimension symbol by its sample value
         if not bool(dim_eq(a, b)):
             raise RuntimeError("normalized_shape mismatch")
     return opaque("layer_norm", [x, d["weight"], d["bias"]], {"normalized_shape": tuple(str(v.e) if isinstance(v, SInt) else v for v in ns),
@@ -919,6 +921,11 @@ def _h_shape_op(name: str, func: Any, args: Tuple[Any, ...], kw: Dict[str, Any])
     elif name == "unsqueeze":
         i = args[1] % (len(x.shape) + 1)
         shape = x.shape[:i] + (1,) + x.shape[i:]
+    elif name == "squeeze":
+        if len(args) < 2:
+            raise HarnessError("squeeze without dim")
+        i = args[1] % len(x.shape)
+        shape = (x.shape[:i] + x.shape[i + 1:]) if (isinstance(x.shape[i], int) and x.shape[i] == 1) else x.shape
     elif name in ("reshape", "view"):
         tgt = args[1:] if not isinstance(args[1], (tuple, list, SSize)) else tuple(args[1])
         if any(isinstance(v, int) and v == -1 for v in tgt):
@@ -1034,7 +1041,7 @@ HANDLERS: Dict[str, Callable[..., Any]] = {
     "cross_entropy": _h_cross_entropy, "mse_loss": _h_mse_loss, "to": _h_to, "float": _h_to, "double": _h_to,
     "half": _h_to, "bfloat16": _h_to, "type": _h_to, "pow": _h_pow, "mean": _h_reduce, "sum": _h_reduce,
     "clone": _h_clone, "detach": _h_clone, "flatten": _h_shape_op, "transpose": _h_shape_op, "t": _h_shape_op,
-    "permute": _h_shape_op, "unsqueeze": _h_shape_op, "reshape": _h_shape_op, "view": _h_shape_op,
+    "permute": _h_shape_op, "unsqueeze": _h_shape_op, "squeeze": _h_shape_op, "reshape": _h_shape_op, "view": _h_shape_op,
     "contiguous": _h_shape_op, "getitem": _h_getitem, "pad": _h_pad, "std": _h_stat, "var": _h_stat,
     "max": _h_stat, "min": _h_stat, "amax": _h_stat, "amin": _h_stat, "norm": _h_stat, "item": _h_item,
 }
